@@ -10,8 +10,9 @@
        source operation explicitly;
      - finally lyd_diff_is_redundant() decides whether the node is freed.
    The diff tree is a data tree: lyd_change_term() on a default leaf, lyd_insert_node() of a node without the default
-   flag and lyd_free_tree() run the lyd_np_cont_dflt_del()/_set() walks over the diff parents; they are modelled with the
-   requests of DiffTree.v because the default flag of a created container is what lyd_diff_apply_r() copies. *)
+   flag, lyd_free_tree() and (since 2dd55cd) lyd_diff_merge_dflt_flag() run the lyd_np_cont_dflt_del()/_set() walks over the
+   diff parents; they are modelled with the requests of DiffTree.v because the default flag of a created container is
+   what lyd_diff_apply_r() copies. *)
 From LY Require Import Base Tree DiffTree.
 Local Open Scope N_scope.
 
@@ -33,11 +34,16 @@ Fixpoint set_ops_nokeys (sch : schema) (lead : bool) (l : list dd) (f : dd -> dd
       else f c :: set_ops_nokeys sch false r f
   end.
 
+(* lyd_diff_merge_dflt_flag(node, flag) (since 2dd55cd): the default flag of a term diff node and the
+   lyd_np_cont_dflt_set() / _del() walk over its diff parents; [oth] = the other siblings of the node all carry the flag *)
+Definition dd_merge_dflt_flag (t : dd) (f : bool) (oth : bool) : dd * list sig :=
+  (dd_set_dflt t f, [if f then SSet oth else SDel]).
+
 (* lyd_diff_merge_none() *)
-Definition merge_none (sch : schema) (cur : dop) (t src : dd) : res (dd * list sig) :=
+Definition merge_none (sch : schema) (cur : dop) (oth : bool) (t src : dd) : res (dd * list sig) :=
   match cur with
   | OpDelete => Err e_inval
-  | _ => Ok ((if dd_is_term sch src then dd_set_dflt t (dd_dflt src) else t), [])
+  | _ => Ok (if dd_is_term sch src then dd_merge_dflt_flag t (dd_dflt src) oth else (t, []))
   end.
 
 (* lyd_change_term(node, value) on a diff leaf whose value differs: the value, an explicit node afterwards, and the
@@ -46,7 +52,7 @@ Definition dd_change_term (t : dd) (v : bytes) : dd * list sig :=
   (dd_set_dflt (dd_set_val t v) false, if dd_dflt t then [SDel] else []).
 
 (* lyd_diff_merge_replace() *)
-Definition merge_replace (sch : schema) (cur : dop) (t src : dd) : res (dd * list sig) :=
+Definition merge_replace (sch : schema) (cur : dop) (oth : bool) (t src : dd) : res (dd * list sig) :=
   match cur with
   | OpReplace | OpCreate =>
       match kind_of sch (dd_sid t) with
@@ -60,9 +66,10 @@ Definition merge_replace (sch : schema) (cur : dop) (t src : dd) : res (dd * lis
                 | None => Err e_inval
                 | Some ov =>
                     let t2 := if beq_bytes ov (dd_val src) then dd_set_op (dd_set_oval t1 None) (Some OpNone) else t1 in
-                    Ok (dd_set_dflt t2 (dd_dflt src), sg)
+                    let '(t3, sg') := dd_merge_dflt_flag t2 (dd_dflt src) oth in
+                    Ok (t3, sg ++ sg')
                 end
-            | _ => Ok (dd_set_dflt t1 (dd_dflt src), sg)
+            | _ => let '(t3, sg') := dd_merge_dflt_flag t1 (dd_dflt src) oth in Ok (t3, sg ++ sg')
             end
       | KList | KLeafList | KAny => Err e_unsupported
       | KCont _ => Err e_int
@@ -206,10 +213,10 @@ Fixpoint merge_r (sch : schema) (mdflt : bool) (inh_s : option dop) (src : dd) (
               | Some cur =>
                   let cell :=
                     match sop with
-                    | OpReplace => merge_replace sch cur t src
+                    | OpReplace => merge_replace sch cur (others dd_dflt i ts) t src
                     | OpCreate => merge_create sch mdflt cur t src
                     | OpDelete => merge_delete sch cur t src
-                    | OpNone => merge_none sch cur t src
+                    | OpNone => merge_none sch cur (others dd_dflt i ts) t src
                     end in
                   match cell with
                   | Err e => Err e
